@@ -151,6 +151,10 @@ func runFlushCrashHist(c *core.Ctx, drv string, ch *crashHist, rep int) {
 	add(proto.Op{K: "init"}, meta{kind: "other"})
 	add(proto.Op{K: "sql", SQL: "CREATE DATABASE d1"}, meta{kind: "other"})
 	add(proto.Op{K: "sql", SQL: "USE d1"}, meta{kind: "other"})
+	if ch.nextFree > 0 {
+		add(proto.Op{K: "setnextfree", N: int(ch.nextFree)}, meta{kind: "other"})
+		c.Count("history_runs_in_a_data_file_around_or_beyond_4GiB", 1)
+	}
 	add(proto.Op{K: "arm", S: "page", Dir: filepath.Join(dir, "arm"), DB: "d1"}, meta{kind: "other"})
 	lastStmtAt := map[int]int{} // op id -> index of the last acknowledged statement before it completes
 	mkdbAfter := -1
